@@ -165,7 +165,7 @@ static void run_case(const std::string &line) {
       else if (t[0] == "F") n->SendFrames();
       else if (t[0] == "C") { int i = atoi(t[1].c_str()); if (i >= 0 && i < ndev) n->StartAddressClaim(i); }
       else if (t[0] == "P") n->ParseMessages();
-      else if (t[0] == "H" && t.size() >= 3) n->SetHeartbeatIntervalAndOffset((uint32_t)tounum(t[1]), (uint32_t)tounum(t[2]));
+      else if (t[0] == "H" && t.size() >= 3) n->SetHeartbeatIntervalAndOffset((uint32_t)tounum(t[1]), (uint32_t)tounum(t[2]), t.size() > 3 ? atoi(t[3].c_str()) : -1);
       else if (t[0] == "R" && t.size() >= 4) {
         RxFrame f; f.id = strtoul(t[1].c_str(), 0, 16); f.len = (unsigned char)atoi(t[2].c_str());
         std::vector<uint8_t> d = unhex(t[3]); memset(f.buf, 0, 8); for (size_t i = 0; i < d.size() && i < 8; i++) f.buf[i] = d[i];
